@@ -197,7 +197,8 @@ class Sim:
                 return fs.exists(inst(t, p.env), follow=not d.endswith(("islink", "lexists")))
             if d == "isinstance" and len(e.args) == 2:
                 # the default registry only holds file codecs
-                return unparse(e.args[1]).endswith("FileCodecProtocol")
+                ts = e.args[1].elts if isinstance(e.args[1], ast.Tuple) else [e.args[1]]
+                return any(unparse(t_).endswith("FileCodecProtocol") for t_ in ts)
             raise Unknown(unparse(e))
         if isinstance(e, ast.Compare) and len(e.ops) == 1 and isinstance(e.ops[0], (ast.Eq, ast.NotEq)):
             lt, rt = self._term(e.left), self._term(e.comparators[0])
